@@ -4,6 +4,7 @@
   any sequence of count arguments, any interleaving of calls with workers taking, finishing, exiting.
 -/
 import BB.Model.Workers
+import BB.Core.Fair
 
 namespace BB.Props.C14
 open BB.Workers BB.LTS
@@ -234,6 +235,276 @@ theorem queued_not_stuck (s : St) (h : Reach sys s) (hq : s.queue ≠ []) (hidle
       · have : sys.step s (.take 0) = some { s with queue := rest, workers := s.workers.set 0 (some j) } := by
           simp [sys, step, hw0, hqs, hgt]
         exact ⟨_, _, this, 0, Or.inl rfl⟩
+
+
+/-- no step loses a job -/
+theorem job_kept (s s' : St) (a : Act) (j : Nat) (hs : sys.step s a = some s') (hj : j ∈ allJobs s) : j ∈ allJobs s' := by
+  simp only [allJobs, List.mem_append] at hj ⊢
+  cases a with
+  | call j' n =>
+    simp only [sys, step] at hs
+    split at hs
+    · cases hs
+    · cases hs
+      have : running { s with queue := s.queue ++ [j'], target := n, workers := s.workers ++ List.replicate (n - count s) none,
+                              maxReq := max s.maxReq n } = running s := by
+        simp only [running]; exact fm_append_none _ _
+      rw [this]
+      rcases hj with (h | h) | h
+      · exact Or.inl (Or.inl (List.mem_append_left _ h))
+      · exact Or.inl (Or.inr h)
+      · exact Or.inr h
+  | take i =>
+    simp only [sys, step] at hs
+    split at hs
+    · rename_i k rest hw hq
+      split at hs
+      · cases hs
+      · cases hs
+        have hp := fm_set_some (j := k) hw
+        rcases hj with (h | h) | h
+        · rw [hq] at h
+          rcases List.mem_cons.mp h with e | h
+          · subst e; exact Or.inl (Or.inr (hp.mem_iff.mpr (List.mem_cons_self)))
+          · exact Or.inl (Or.inl h)
+        · exact Or.inl (Or.inr (hp.mem_iff.mpr (List.mem_cons_of_mem _ h)))
+        · exact Or.inr h
+    · cases hs
+  | finish i =>
+    simp only [sys, step] at hs
+    split at hs
+    · rename_i k hw
+      cases hs
+      have hp := fm_set_none hw
+      rcases hj with (h | h) | h
+      · exact Or.inl (Or.inl h)
+      · rcases List.mem_cons.mp (hp.mem_iff.mp h) with e | h
+        · subst e; exact Or.inr (List.mem_append_right _ (List.mem_singleton.mpr rfl))
+        · exact Or.inl (Or.inr h)
+      · exact Or.inr (List.mem_append_left _ h)
+    · cases hs
+  | exit i =>
+    simp only [sys, step] at hs
+    split at hs
+    · rename_i hw
+      split at hs
+      · cases hs
+        have : running { s with workers := s.workers.eraseIdx i } = running s := by
+          simp only [running]; exact fm_erase_none hw
+        rw [this]; exact hj
+      · cases hs
+    · cases hs
+
+/-! ### No starvation as a leads-to theorem
+
+  Once no new `Call` arrives (finitely many callers, whatever counts they passed and in whatever order), every
+  queued job is eventually taken by a worker, along every run that is weakly fair for the worker steps
+  (take / finish / exit; "the job function returns" is the `finish` step).  The measure is
+  `2 * (position in the queue) + (jobs executing) + (live workers)`: a take moves the queue, a finish frees a
+  worker, an exit of a surplus worker brings the count down to the target, which re-enables takes.
+  With infinitely many callers alternating a large and a small count a queued job *can* wait for ever under
+  weak fairness alone (every worker can find itself surplus each time it looks), so that hypothesis is needed. -/
+
+def workerStep : Act → Prop
+  | .call _ _ => False
+  | _ => True
+
+def mu (j : Nat) (s : St) : Nat := 2 * s.queue.idxOf j + (running s).length + count s
+
+theorem worker_step_enabled (s : St) (h : Inv s) (hq : s.queue ≠ []) :
+    ∃ a, workerStep a ∧ enabled sys s a := by
+  have hw := h.qw hq
+  cases hws : s.workers with
+  | nil => exact absurd hws hw
+  | cons w ws =>
+    cases hqs : s.queue with
+    | nil => exact absurd hqs hq
+    | cons j rest =>
+      cases w with
+      | some k => exact ⟨.finish 0, trivial, by simp [enabled, sys, step, hws]⟩
+      | none =>
+        by_cases hgt : count s > s.target
+        · exact ⟨.exit 0, trivial, by simp [enabled, sys, step, hws, hgt]⟩
+        · exact ⟨.take 0, trivial, by simp [enabled, sys, step, hws, hqs, hgt]⟩
+
+/-- every worker step brings a queued job strictly closer to being taken -/
+theorem mu_worker_step (j : Nat) (s s' : St) (a : Act) (h : Inv s) (hj : j ∈ s.queue) (ha : workerStep a)
+    (hs : sys.step s a = some s') : j ∉ s'.queue ∨ mu j s' < mu j s := by
+  cases a with
+  | call _ _ => exact absurd ha (by simp [workerStep])
+  | take i =>
+    simp only [sys, step] at hs
+    split at hs
+    · rename_i k rest hw hq
+      split at hs
+      · cases hs
+      · cases hs
+        by_cases e : k = j
+        · -- the job itself is taken
+          left
+          subst e
+          have hnd := h.nodup
+          simp only [allJobs, hq] at hnd
+          have := (List.nodup_append.mp (List.nodup_append.mp hnd).1).1
+          simp only [List.nodup_cons] at this
+          exact this.1
+        · right
+          have hlen : (running { s with queue := rest, workers := s.workers.set i (some k) }).length = (running s).length + 1 := by
+            have := (fm_set_some (j := k) hw).length_eq
+            simpa [running] using this
+          have hidx : s.queue.idxOf j = rest.idxOf j + 1 := by
+            have hb : (k == j) = false := by simp [e]
+            simp [hq, List.idxOf_cons, hb]
+          have hcnt : count { s with queue := rest, workers := s.workers.set i (some k) } = count s := by simp [count]
+          simp only [mu, hlen, hcnt, hidx]
+          omega
+    · cases hs
+  | finish i =>
+    simp only [sys, step] at hs
+    split at hs
+    · rename_i k hw
+      cases hs
+      right
+      have hlen : (running s).length = (running { s with workers := s.workers.set i none, done := s.done ++ [k] }).length + 1 := by
+        have := (fm_set_none hw).length_eq
+        simpa [running] using this
+      have hcnt : count { s with workers := s.workers.set i none, done := s.done ++ [k] } = count s := by simp [count]
+      simp only [mu, hcnt]
+      omega
+    · cases hs
+  | exit i =>
+    simp only [sys, step] at hs
+    split at hs
+    · rename_i hw
+      split at hs
+      · cases hs
+        right
+        have hlen : running { s with workers := s.workers.eraseIdx i } = running s := by
+          simp only [running]; exact fm_erase_none hw
+        have hi : i < s.workers.length := by
+          cases hlt : s.workers[i]? with
+          | none => rw [hlt] at hw; cases hw
+          | some _ => exact (List.getElem?_eq_some_iff.mp hlt).1
+        have hcnt : count { s with workers := s.workers.eraseIdx i } + 1 = count s := by
+          simp only [count, List.length_eraseIdx, hi, ↓reduceIte]; omega
+        simp only [mu, hlen]
+        omega
+      · cases hs
+    · cases hs
+
+/-- **no call is starved**: from the moment no new `Call` arrives, along every run that is weakly fair for the
+    worker steps, every queued job is eventually taken off the queue by a worker (and then, by `exactly_once`,
+    is executing or finished) — whatever counts the callers passed, in whatever order -/
+theorem queued_job_is_eventually_taken (r : Run sys) (hfair : WeakFair sys (fun _ a => workerStep a) r)
+    (i0 : Nat) (hquiet : ∀ k, i0 ≤ k → ∀ a, r.act k = some a → workerStep a)
+    (j : Nat) (i : Nat) (hi : i0 ≤ i) (hq : j ∈ (r.st i).queue) :
+    ∃ k, i ≤ k ∧ j ∉ (r.st k).queue ∧ (j ∈ running (r.st k) ∨ j ∈ (r.st k).done) := by
+  have key := leadsTo_from sys (fun _ a => workerStep a) r Inv (fun s => j ∉ s.queue) (mu j) workerStep i0 hquiet hfair
+    (fun k => inv_reach _ (run_reach sys r k))
+    (fun s hI hnG => by
+      have hj : j ∈ s.queue := Classical.not_not.mp hnG
+      exact worker_step_enabled s hI (List.ne_nil_of_mem hj))
+    (fun s a s' hI hnG hA hs => by
+      have hj : j ∈ s.queue := Classical.not_not.mp hnG
+      rcases mu_worker_step j s s' a hI hj hA hs with h | h
+      · exact Or.inl h
+      · exact Or.inr (Nat.le_of_lt h))
+    (fun s a s' hI hnG hA _ hs => mu_worker_step j s s' a hI (Classical.not_not.mp hnG) hA hs)
+  -- a job is never lost: it stays somewhere among queue / executing / finished
+  have kept : ∀ k, j ∈ allJobs (r.st (i + k)) := by
+    intro k
+    induction k with
+    | zero => simp [allJobs, hq]
+    | succ k ih =>
+      have hn := r.next (i + k)
+      rw [show i + (k + 1) = i + k + 1 by omega]
+      cases ha : r.act (i + k) with
+      | none => simp only [ha] at hn; rw [hn]; exact ih
+      | some a =>
+        simp only [ha] at hn
+        exact job_kept _ _ _ j hn ih
+  obtain ⟨k, hk, hg⟩ := key i hi
+  refine ⟨k, hk, hg, ?_⟩
+  have := kept (k - i)
+  rw [show i + (k - i) = k by omega] at this
+  simp only [allJobs, List.mem_append] at this
+  rcases this with (h | h) | h
+  · exact absurd h hg
+  · exact Or.inl h
+  · exact Or.inr h
+
+/-! non-vacuity of the leads-to theorem: a weakly fair run with two callers (counts 2 then 1) and no later call;
+    the surplus worker exits, the remaining one drains the queue -/
+def demoActs : Nat → Option Act
+  | 0 => some (.call 1 2) | 1 => some (.call 2 1) | 2 => some (.exit 1) | 3 => some (.take 0) | 4 => some (.finish 0)
+  | 5 => some (.take 0) | 6 => some (.finish 0) | 7 => some (.exit 0) | _ => none
+
+def demoSt : Nat → St
+  | 0 => sys.init
+  | k + 1 => match demoActs k with
+    | some a => (sys.step (demoSt k) a).getD (demoSt k)
+    | none => demoSt k
+
+theorem demoSt_final (k : Nat) : demoSt (k + 8) = demoSt 8 := by
+  induction k with
+  | zero => rfl
+  | succ k ih => show demoSt (k + 8) = demoSt 8; exact ih
+
+def demoRun : Run sys where
+  st := demoSt
+  act := demoActs
+  start := rfl
+  next := by
+    intro i
+    match i with
+    | 0 => show sys.step (demoSt 0) _ = some (demoSt 1); decide
+    | 1 => show sys.step (demoSt 1) _ = some (demoSt 2); decide
+    | 2 => show sys.step (demoSt 2) _ = some (demoSt 3); decide
+    | 3 => show sys.step (demoSt 3) _ = some (demoSt 4); decide
+    | 4 => show sys.step (demoSt 4) _ = some (demoSt 5); decide
+    | 5 => show sys.step (demoSt 5) _ = some (demoSt 6); decide
+    | 6 => show sys.step (demoSt 6) _ = some (demoSt 7); decide
+    | 7 => show sys.step (demoSt 7) _ = some (demoSt 8); decide
+    | k + 8 => rfl
+
+theorem demoRun_fair : WeakFair sys (fun _ a => workerStep a) demoRun := by
+  intro i hen
+  by_cases hi : i < 8
+  · -- a worker step is taken at max i 2
+    refine ⟨max i 2, by omega, ?_⟩
+    match i, hi with
+    | 0, _ => exact ⟨_, rfl, trivial⟩
+    | 1, _ => exact ⟨_, rfl, trivial⟩
+    | 2, _ => exact ⟨_, rfl, trivial⟩
+    | 3, _ => exact ⟨_, rfl, trivial⟩
+    | 4, _ => exact ⟨_, rfl, trivial⟩
+    | 5, _ => exact ⟨_, rfl, trivial⟩
+    | 6, _ => exact ⟨_, rfl, trivial⟩
+    | 7, _ => exact ⟨_, rfl, trivial⟩
+  · exfalso
+    obtain ⟨a, hH, he⟩ := hen i (Nat.le_refl _)
+    have hst : demoRun.st i = demoSt 8 := by
+      have := demoSt_final (i - 8); rwa [show i - 8 + 8 = i by omega] at this
+    rw [hst] at he
+    have hw : (demoSt 8).workers = [] := by decide
+    cases a with
+    | call _ _ => exact hH
+    | take k => simp [enabled, sys, step, hw] at he
+    | finish k => simp [enabled, sys, step, hw] at he
+    | exit k => simp [enabled, sys, step, hw] at he
+
+example : ∃ k, 2 ≤ k ∧ 2 ∉ (demoRun.st k).queue ∧ (2 ∈ running (demoRun.st k) ∨ 2 ∈ (demoRun.st k).done) :=
+  queued_job_is_eventually_taken demoRun demoRun_fair 2
+    (fun k hk a ha => by
+      match k, hk with
+      | 2, _ => cases ha; trivial
+      | 3, _ => cases ha; trivial
+      | 4, _ => cases ha; trivial
+      | 5, _ => cases ha; trivial
+      | 6, _ => cases ha; trivial
+      | 7, _ => cases ha; trivial
+      | k + 8, _ => cases ha)
+    2 2 (Nat.le_refl _) (by decide)
 
 /-! non-vacuity: three callers with decreasing counts; the queue drains with one worker left -/
 example : (sys.run sys.init [.call 1 3, .take 0, .call 2 1, .call 3 1, .exit 1, .exit 1, .finish 0, .take 0]).map
